@@ -261,16 +261,17 @@ def parse_tokens(src: str) -> list[str]:
 
 
 def beta_outcome(src: str) -> str:
-    """`json.loads` then `ast.literal_eval` on the stripped string — the library calls of the transform pathway."""
+    """`ast.literal_eval` then `json.loads` on the stripped string — the library calls of the transform pathway."""
     s = src.strip()
-    try:
-        return show_plain(json.loads(s))
-    except json.JSONDecodeError:
-        pass
-    except Exception:  # noqa   RecursionError etc. propagate to metabolize's handler
-        return "none"
+    # the order of the two library calls follows the code (literal first since the fix of the JSON-escape defect)
     try:
         return show_plain(ast.literal_eval(s))
+    except (ValueError, SyntaxError):
+        pass
+    except Exception:  # noqa   RecursionError / MemoryError propagate to metabolize's handler
+        return "none"
+    try:
+        return show_plain(json.loads(s))
     except Exception:  # noqa
         return "none"
 
@@ -734,6 +735,16 @@ class _State:
                 except BaseException as e:  # noqa
                     ex["ref"] = None
                     ex["ref_raise"] = type(e).__name__
+            if r.pathway is not None and r.pathway.value == "transform":
+                # the transform pathway accepts list displays of literals, which are in the allowed grammar: Python's value
+                # of the text is the reference there too
+                try:
+                    # (surrounding whitespace is not part of the expression: eval() strips it, and so does the pathway)
+                    ex["ref"] = canon(eval(compile(src.strip(), "<ref>", "eval"), {"__builtins__": {}}, dict(table)))
+                except BaseException as e:  # noqa
+                    ex["ref"] = None
+                    ex["ref_raise"] = type(e).__name__
+                ex["in_grammar"] = in_grammar(src, table)
             if r.pathway is not None and r.pathway.value == "tool":
                 # reference on the tool pathway: the text must compile (Python refuses e.g. a repeated keyword for ANY
                 # callee); every argument expression is evaluated by Python with the allow-listed names; the registered
@@ -766,6 +777,32 @@ class _State:
             self.m.repair(int(t[1]) / int(t[2]))
             return f"ros={int(round(self.m._ros_accumulated * 10))}", None
         return "bad-op", None
+
+
+GRAMMAR_NODES = ("Expression", "Constant", "BinOp", "UnaryOp", "Call", "Name", "List", "Tuple", "Compare", "BoolOp",
+                 "IfExp", "Load", "keyword")
+
+
+def in_grammar(src: str, table) -> bool:
+    """the text is an expression of C02's allowed subset over the allow-listed names (no dict / set displays, no
+    attribute access, no name outside the table such as JSON's true / null / NaN)"""
+    try:
+        tree = ast.parse(src.strip(), mode="eval")
+    except Exception:  # noqa
+        return False
+    for n in ast.walk(tree):
+        cn = type(n).__name__
+        if isinstance(n, (ast.operator, ast.unaryop, ast.cmpop, ast.boolop)):
+            continue
+        if cn not in GRAMMAR_NODES:
+            return False
+        if cn == "Name" and n.id not in table:
+            return False
+        if cn == "Constant" and not isinstance(n.value, (int, float, str, bool)):
+            return False
+        if cn == "keyword" and n.arg is None:
+            return False
+    return True
 
 
 def canon(v):
